@@ -80,6 +80,14 @@ def make_dataset(rng, fam):
                     name = f'd_{sp["dim"]}_{kind}_{v}'
                     ds[name] = da.transpose(*dims)
                     variables.append((name, sp, kind, mode))
+    # variables that lie along a depth dimension and nothing horizontal (layer thicknesses, a profile per record): they have
+    # no horizontal location to reduce at
+    for sp in specs:
+        if rng.random() < 0.5:
+            ds[f'dz_{sp["dim"]}'] = xarray.DataArray(numpy.arange(sp['n'], dtype='f8') + 0.25, dims=[sp['dim']])
+        if rng.random() < 0.4:
+            ds[f'profile_{sp["dim"]}'] = xarray.DataArray(numpy.arange(nt * sp['n'], dtype='f8').reshape(nt, sp['n']) + 0.75,
+                                                          dims=['record', sp['dim']])
     # variables without a depth dimension
     ds['eta'] = xarray.DataArray(numpy.arange(nt * ds.sizes[kinds['face'][0]], dtype='f8').reshape(nt, -1) + 0.5,
                                  dims=['record', kinds['face'][0]]) if len(kinds['face']) == 1 else \
@@ -98,6 +106,7 @@ def run(ctx):
                 'one variable; non-trivial = its columns have at least two different floor depths; distinct by variable content')
     n_ds = 30 if quick else 200
     exprs, plans = [], []
+    plan_exprs, plan_plans = [], []
     for n in range(n_ds):
         fam = rng.choice(['cf1d', 'cf2d', 'shoc_simple', 'shoc_standard', 'ugrid'])
         d, ds, specs, variables, tname = make_dataset(rng, fam)
@@ -180,6 +189,21 @@ def run(ctx):
         if bad:
             ctx.report('property', bad, case0)
             continue
+        # ---- which variables are reduced, which are left, which go with the dimension: model FloorPlan
+        dim_ids = {str(x): i for i, x in enumerate(before.dims)}
+        var_ids = {str(x): 100 + i for i, x in enumerate(before.data_vars)}
+        ns_dims = [] if (not via_ems and n % 4 == 1) else [dim_ids[str(x)] for x in before[tname].dims]
+        vlit = '[' + '; '.join(f'{{| v_name := {var_ids[str(x)]}; v_dims := {to_coq([dim_ids[str(y)] for y in before[x].dims])} |}}'
+                               for x in before.data_vars) + ']'
+        plan_exprs.append(f'(show_plan (plan {to_coq(sorted(dim_ids[x] for x in depth_dims))} {to_coq(ns_dims)} {vlit}))')
+        impl_plan = []
+        for x in before.data_vars:
+            if str(x) not in out.variables:
+                impl_plan.append((var_ids[str(x)], None))
+            else:
+                impl_plan.append((var_ids[str(x)], Some(sorted(dim_ids[str(y)] for y in out[x].dims))))
+        plan_plans.append((dict(case0, data_variables={str(x): list(map(str, before[x].dims)) for x in before.data_vars}), impl_plan))
+        ctx.count(f'plan:data variables={min(len(var_ids), 6)}{"+" if len(var_ids) >= 6 else ""}')
         for name, sp, kind, mode in variables:
             vin = before[name]
             case = dict(case0, variable=name, dims=list(vin.dims), floor_mode=mode)
@@ -222,6 +246,18 @@ def run(ctx):
             plans.append((case, flat_out))
     model = coq_eval_sharded(['Model.Depth'], exprs, shard=8, workers=14)
     ctx.leg('coq_eval_variables', len(exprs))
+    mplans = coq_eval_sharded(['Model.FloorPlan'], plan_exprs, shard=10, workers=6)
+    ctx.leg('reduction_plans', len(plan_exprs))
+    for (pcase, impl_plan), mp in zip(plan_plans, mplans):
+        # model rows: (name, (action code, depth dimension, reference), dims or None); a floored or untouched variable is in the
+        # result with the model's dimensions, a dropped one is not
+        # (the order of the dimensions within a variable is xarray's business - vectorised indexing moves them - and no part of
+        # the property: compared as sets)
+        want = [(int(nm), None if dims is None else Some(sorted(dims.v))) for (nm, _act), dims in mp]
+        if want != impl_plan:
+            k = next(i for i, (a, b) in enumerate(zip(want, impl_plan)) if a != b)
+            ctx.report('correspondence', f'data variable {want[k][0]}: the result holds it with dimensions {impl_plan[k][1]}, model '
+                       f'FloorPlan.plan says {want[k][1]} (None: not in the result)', pcase, found_input=False)
     ctx.leg('coq_eval_columns', sum(len(p[1]) for p in plans))
     for (case, flat_out), mres in zip(plans, model):
         impl = [Some(None if x != x else Some(int(x))) for x in flat_out]
